@@ -46,7 +46,7 @@ LINT_RULES = [
 CONVERSIONS = list("diouxXeEfFgGcrsab%") + ["y", "k"]
 FLAGS = ["", "#", "0", "-", " ", "+", "-0", "#0", "+ "]
 WIDTHS = ["", "5", "*"]
-PRECS = ["", ".2", ".*"]
+PRECS = ["", ".2", ".*", "."]  # a bare "." is precision 0 for CPython
 LENMODS = ["", "l"]
 KEYS = [None, "a", "b"]
 
